@@ -317,7 +317,7 @@ func cat(a [][]Vuln, bs ...[][]Vuln) [][]Vuln {
 // Shapes (every loop is a full product):
 //
 //	solo     manifest {d1: R}; d1 publishes S; vulns on d1
-//	         S in Subsets(ladder, MaxVers) x R in manifestReqs x VulnSets(d1) x CfgSets(d1)
+//	         S in Subsets(ladder, MaxVers) (Lite quick: first 4 ladder versions) x R in manifestReqs x VulnSets(d1) x CfgSets(d1)
 //	chainT   manifest {d1: 1.0.0}; d1@1.0.0 -> t1@E; t1 publishes T; vulns on t1
 //	         T in Subsets(ladder, MaxVers) (Lite quick: first 4 ladder versions) x E in edgeReqs x VulnSets(t1) x CfgSets(d1,t1)
 //	chainD   manifest {d1: R}; d1 publishes D; t1 publishes {1.0.0,2.0.0}; d1's i-th version pins t1@1.0.0 if bit i
@@ -364,7 +364,11 @@ func (b Bounds) GenFixShape(eco, shape string, emit func(*Case)) {
 	// solo
 	vsD1 := b.VulnSets("d1")
 	cfgD1 := b.CfgSets([]string{"d1"})
-	for _, s := range subs {
+	ssubs := subs
+	if b.Lite && !b.Thorough {
+		ssubs = Subsets(l4, b.MaxVers)
+	}
+	for _, s := range ssubs {
 		if shape != "solo" {
 			break
 		}
@@ -736,7 +740,7 @@ func OptionVariants(c *Case) []Case {
 }
 
 // ScopeShapes lists the shapes of GenScopeShape (used by C12 only; GenFix/FixShapes are unchanged).
-var ScopeShapes = []string{"shift"}
+var ScopeShapes = []string{"shift", "branches"}
 
 // GenScopeShape enumerates universes in which a patch changes the POSITION (depth, dev-only
 // reachability) of a vulnerable transitive package, so that position-dependent options (depth
@@ -749,6 +753,10 @@ var ScopeShapes = []string{"shift"}
 //	       R = a (thorough: also ^a / ${p}=a); upgrade config {major} | {patch} | {major,t2:none} (thorough: also {minor}, {major,t1:none})
 //	       full product, simplest first.
 func (b Bounds) GenScopeShape(eco, shape string, emit func(*Case)) {
+	if shape == "branches" {
+		b.genBranches(eco, emit)
+		return
+	}
 	if shape != "shift" {
 		return
 	}
@@ -1245,6 +1253,101 @@ func (b Bounds) GenOverlapShape(eco string, emit func(*Case)) {
 						{Name: "d1", Vers: []Ver{{V: ab[0], Deps: []Dep{{Name: "t1", Req: x}}}, {V: ab[1], Deps: []Dep{{Name: "t1", Req: z}}}}},
 						{Name: "t1", Vers: plainVers(t)},
 					}, Manifest: []Req{{Name: "d1", Req: ab[0]}}, Vulns: vs, Cfg: cfg})
+				}
+			}
+		}
+	}
+}
+
+// genBranches: one OSV record with several affected[] entries for the SAME package, one per release branch:
+//
+//	branches  manifest {d1: a}; d1 publishes S; record V1 on d1 with entry 1 = [0,f1) and entry 2 = [i2,f2) where
+//	          i2 in {f1, next(f1)} and f2 in {next(i2), nofix} (the first version outside entry 1 can lie inside entry 2);
+//	          thorough: also a third entry that only lists `versions: [x]` for x in S
+//	          S in Subsets(first 4 ladder versions (thorough: ladder), 3) with |S| >= 2 x a in S x f1 in ladder x (i2,f2) x CfgSets(d1)
+func (b Bounds) genBranches(eco string, emit func(*Case)) {
+	l := b.Ladder
+	sl := l
+	if !b.Thorough {
+		sl = l[:4]
+	}
+	next := func(v string) string {
+		for i, x := range l {
+			if x == v && i+1 < len(l) {
+				return l[i+1]
+			}
+		}
+		return ""
+	}
+	for _, s := range Subsets(sl, 3) {
+		if len(s) < 2 {
+			continue
+		}
+		for _, a := range s {
+			for _, f1 := range l {
+				for _, i2 := range []string{f1, next(f1)} {
+					if i2 == "" {
+						continue
+					}
+					for _, f2 := range []string{next(i2), ""} {
+						if f2 == "" && next(i2) == "" && i2 != f1 {
+							continue
+						}
+						extras := [][]Entry{{{Introduced: i2, Fixed: f2}}}
+						if b.Thorough {
+							for _, x := range s {
+								extras = append(extras, []Entry{{Introduced: i2, Fixed: f2}, {Versions: []string{x}}})
+							}
+						}
+						for _, more := range extras {
+							for _, cfg := range b.CfgSets([]string{"d1"}) {
+								emit(&Case{Eco: eco, Shape: "branches", Pkgs: []Pkg{{Name: "d1", Vers: plainVers(s)}},
+									Manifest: []Req{{Name: "d1", Req: a}},
+									Vulns:    []Vuln{{ID: "V1", Pkg: "d1", Introduced: "0", Fixed: f1, More: more}}, Cfg: cfg})
+							}
+						}
+					}
+				}
+			}
+		}
+	}
+}
+
+// CfgRoutes are the ways a Case builds its upgrade.Config (Case.CfgRoute).
+var CfgRoutes = []string{"", "strings", "strings-colon", "strings-rev"}
+
+// GenCfgRouteShape enumerates small universes under EVERY construction route / spelling of the same upgrade
+// configuration (Config.Set; NewConfigFromStrings with the default as "level" or ":level", per-package entries as
+// "pkg:level" (Maven "group:artifact:level", split at the last colon), default first or last) - used by C11:
+//
+//	cfgroute-solo    manifest {d1: a}; d1 publishes S; vulns {d1 [0,f)} f in ladder + nofix
+//	                 route x S in Subsets(first 4 ladder versions, 2) x a in S x vulns x CfgSets(d1) + (major,d1:patch) (major,d1:minor)
+//	cfgroute-update  (Maven Update) manifest {d1: a}: route x S x a in first 4 ladder versions x the same configs
+func (b Bounds) GenCfgRouteShape(eco, shape string, emit func(*Case)) {
+	l := b.Ladder
+	cfgs := append(b.CfgSets([]string{"d1"}), []string{"major", "d1:patch"}, []string{"major", "d1:minor"})
+	for _, route := range CfgRoutes {
+		for _, s := range Subsets(l[:4], 2) {
+			switch shape {
+			case "cfgroute-solo":
+				for _, a := range s {
+					for i := 0; i <= len(l); i++ {
+						v := Vuln{ID: "V1", Pkg: "d1", Introduced: "0"}
+						if i < len(l) {
+							v.Fixed = l[i]
+						}
+						for _, cfg := range cfgs {
+							emit(&Case{Eco: eco, Shape: shape, CfgRoute: route, Pkgs: []Pkg{{Name: "d1", Vers: plainVers(s)}},
+								Manifest: []Req{{Name: "d1", Req: a}}, Vulns: []Vuln{v}, Cfg: cfg})
+						}
+					}
+				}
+			case "cfgroute-update":
+				for _, a := range l[:4] {
+					for _, cfg := range cfgs {
+						emit(&Case{Eco: Maven, Shape: shape, CfgRoute: route, Pkgs: []Pkg{{Name: "d1", Vers: plainVers(s)}},
+							Manifest: []Req{{Name: "d1", Req: a}}, Cfg: cfg})
+					}
 				}
 			}
 		}
